@@ -237,10 +237,15 @@ Qed.
 Lemma cont_esc1 c rest : char_ok c = true -> cont_ok (esc1 c ++ rest) = true.
 Proof.
   intros Hc. apply char_ok_inv in Hc as (Hr & Hb & Hcol & Hn & Htab). unfold esc1.
-  destruct (is_blank c) eqn:Bl; [reflexivity|].
-  destruct (c =? c_hash); [reflexivity|]. destruct (c =? c_dollar); [reflexivity|].
-  unfold is_blank in Bl. apply orb_false_iff in Bl as [Bs _].
-  cbn [app cont_ok]. now rewrite Hn, Bs, Htab.
+  destruct (is_blank c) eqn:Bl.
+  - cbn [app cont_ok]. change (c_bs =? c_nl) with false. change (c_bs =? c_sp) with false.
+    change (c_bs =? c_tab) with false. change (c_bs =? c_bs) with true. cbn iota. cbn [orb]. now rewrite Hn.
+  - destruct (c =? c_hash).
+    + cbn [app cont_ok]. change (c_bs =? c_nl) with false. change (c_bs =? c_sp) with false.
+      change (c_bs =? c_tab) with false. change (c_bs =? c_bs) with true. cbn iota. cbn [orb]. now rewrite Hn.
+    + destruct (c =? c_dollar); [reflexivity|].
+      unfold is_blank in Bl. apply orb_false_iff in Bl as [Bs _].
+      cbn [app cont_ok]. now rewrite Hn, Bs, Htab, Hb.
 Qed.
 
 Lemma rd_chars_some after w tg ws acc d rest : forallb char_ok d = true ->
